@@ -38,6 +38,11 @@ structure Sig where
   valHash : List (Fld × Val) → HV
   exec : G → (Fld → Option Val) → Out             -- run a graph; lazy workflow inputs are read from the Workflow's inputs
   view : G → (Fld → Option Val) → View            -- graph view with lazy workflow inputs resolved through the inputs
+  /-- Environment parameter: how many candidate key sets of the superset-of-lazy search get a correct hash.
+      `Workflow.construct` shares one id-keyed hash memo (`hash_cache`) over the temporaries `subset_vals`; on CPython the
+      third and every later temporary reuses the `id` of a freed one and is given that one's (stale) hash, so only the
+      first two candidates can hit (measured by the harness on every run; `none` = no limit). -/
+  window : Option Nat := none
 
 attribute [instance] Sig.decHT Sig.decHV
 
@@ -75,16 +80,21 @@ def insertAt {κ β : Type} [DecidableEq κ] (l : List (κ × β)) (k : κ) (b :
 
 def subsetOf (a b : List Fld) : Bool := a.all b.contains
 
-/-- The superset-of-lazy search over the key sets of one class, in insertion order. -/
-def supersetHit (l2 : Level2 S) (keys : List Fld) (vals : Fld → S.Val) : Option (List Fld × WfObj S) :=
+/-- The superset-of-lazy search over the key sets of one class, in insertion order.  `left` = how many further candidate
+    key sets get a correct hash (see `Sig.window`); a candidate with a stale hash never matches. -/
+def supersetHit (l2 : Level2 S) (keys : List Fld) (vals : Fld → S.Val) (left : Option Nat) :
+    Option (List Fld × WfObj S) :=
   match l2 with
   | [] => none
   | (ks, l3) :: rest =>
     if subsetOf ks keys then
-      match lookup l3 (S.valHash (restrict S ks vals)) with
-      | some wf => some (ks, wf)
-      | none => supersetHit rest keys vals
-    else supersetHit rest keys vals
+      match left with
+      | some 0 => supersetHit rest keys vals (some 0)
+      | _ =>
+        match lookup l3 (S.valHash (restrict S ks vals)) with
+        | some wf => some (ks, wf)
+        | none => supersetHit rest keys vals (left.map (· - 1))
+    else supersetHit rest keys vals left
 
 def cacheInsert (c : Cache S) (th : S.HT) (keys : List Fld) (vh : S.HV) (wf : WfObj S) : Cache S :=
   let l2 := (lookup c th).getD []
@@ -101,7 +111,7 @@ def construct (cache : Cache S) (cls : Nat) (vals : Fld → S.Val) (lazy : List 
   match (lookup l2 keys).bind fun l3 => lookup l3 vh with
   | some wf => (.ok wf, cache)                                  -- exact hit: the cached object itself
   | none =>
-    match supersetHit S l2 keys vals with
+    match supersetHit S l2 keys vals S.window with
     | some (ks, wf) =>                                          -- deepcopy + setattr of the additional non-lazy inputs
       (.ok { graph := wf.graph, inputs := fun f => if keys.contains f && !(ks.contains f) then some (vals f) else wf.inputs f },
        cache)
@@ -225,6 +235,15 @@ def specStep (st : SpecState S) : Op S → Obs S × SpecState S
 def specHist (st : SpecState S) : List (Op S) → List (Obs S)
   | [] => []
   | op :: rest => let (o, st') := specStep S st op; o :: specHist st' rest
+
+/-- No in-place input change after construct: `set i` never follows a `tconstruct i` / `run i` (which may memoise). -/
+def okHist (touched : List Nat) : List (Op S) → Bool
+  | [] => true
+  | .set i _ _ :: r => !(touched.contains i) && okHist touched r
+  | .tconstruct i :: r => okHist (i :: touched) r
+  | .run i _ :: r => okHist (i :: touched) r
+  | .construct _ _ :: r => okHist touched r
+  | .clear :: r => okHist touched r
 
 /-- Initial states: tasks just created, nothing cached. -/
 def init (tasks : List (Nat × (Fld → S.Val))) : State S :=
